@@ -13,6 +13,7 @@
      zip.CheckDir L[S dir; L children]         -> L[report; S errclass]
      zip.Create L[S mp; S mv; L files]         -> ok L[L[S name; S content]...] | err class
      zip.CreateFromDir L[S mp; S mv; L children] -> same
+     zip.DirListCondition L children           -> I (the side condition of dir_vs_list_agree)
      zip.Unzip L[fs; S dir; S mp; S mv; I zipsize; L entries]
                                                -> L[S outcome; fs listing sorted by path]
         (file contents are blanked in the listing unless the outcome is "ok")
@@ -203,6 +204,11 @@ Definition dispatch (f : str) (a : val) : val :=
         | _, _ => VBadCase
         end
     | _ => VBadCase
+    end
+  else if str_eqb f (B "zip.DirListCondition") then
+    match children_of_val a with
+    | Some ch => VB (dir_list_condition ch)
+    | None => VBadCase
     end
   else if str_eqb f (B "path.Clean") then on_s a (fun s => VS (path_clean s))
   else if str_eqb f (B "path.Dir") then on_s a (fun s => VS (path_dir s))
